@@ -3,7 +3,17 @@
 Correspondence between bermuda's `Triangle.summarize` / `summarize_cell_values` and the Lean model
 (drv_c09, driven by the rule table regenerated from /repo), with the Lean Spec predicates
 (Spec/C09.lean) evaluated on the IMPLEMENTATION's output. EVERY field name registered in
-SUMMARIZE_DEFAULTS is the focus field of some case (each rule is a separate closure)."""
+SUMMARIZE_DEFAULTS is the focus field of some case (each rule is a separate closure).
+
+LESSON cases (`lesson_cases`, fixed quota in every run after the random summarize cases, histogram keys `lesson/*`,
+`stream=lesson/*`, `lesson-outcome/*`; VERIF_SKIP_LESSONS=1 drops them — experiments only) go through `run_summarize`
+like the random cases: 256/257/300 slices at one coordinate, 40/256/1000(/4096)-sample arrays, 330 cells; periods
+sharing a start / an end; half-month periods and incremental cells whose prev_evaluation_date differs only in the day;
+for EVERY metadata attribute and for details / loss_details entries one odd slice among 3-5 at an interior position
+(first and last agree), at the last and at an end; value-level late differences; every registered field with every
+option given / none; summary_fns given and then defaults on the same triangle; value twins called one after the other;
+derived triangles (filter / index / derive_metadata / select / derive_fields / clip / right_edge) whose parent's caches
+are warm and whose refusal status differs from the parent's; falsy shared details / limits / strings / values."""
 import datetime
 import json
 import math
@@ -356,6 +366,412 @@ def prime(rng, focus):
     call(lambda: t.select(["paid_loss", "reported_loss", "earned_premium"]).aggregate(period_resolution=(2, "years")))
 
 
+# ---- lesson cases (generator lessons of seeded batch 4; BUILD_GUIDE last section) ----------------------------------
+# A FIXED quota in every run, through run_summarize like the random cases. VERIF_SKIP_LESSONS=1 drops them (experiments).
+
+D = datetime.date
+_DAY = datetime.timedelta(days=1)
+_BASE = dict(risk_basis="Accident", country="US", currency="USD", reinsurance_basis="Net", loss_definition="Loss",
+             per_occurrence_limit=500000, details={"coverage": "BI", "state": "NY"}, loss_details={"peril": "wind"})
+
+
+def _cells(kind, metas, rows, vals_of):
+    """cells of every slice on the same rows; vals_of(si, ps, pe, ev) -> dict or None (cell left out)"""
+    out = []
+    for si, m in enumerate(metas):
+        for ps, pe, evs in rows:
+            prev = ps - _DAY
+            for ev in evs:
+                v = vals_of(si, ps, pe, ev)
+                this_prev, prev = prev, ev
+                if v is None:
+                    continue
+                if kind == "I":
+                    out.append(IncrementalCell(ps, pe, this_prev, ev, v, m))
+                elif kind == "U":
+                    out.append(CumulativeCell(ps, pe, ev, v, m))
+                else:
+                    out.append(Cell(ps, pe, ev, v, m))
+    return out
+
+
+def lesson_cases(rng, reps, rules, names):
+    out = []
+
+    def add(tag, cells=None, prem=True, extra=(), kwargs=None, seq=True, tri=None, before=None, focus="paid_loss"):
+        p = Plan()
+        p.tag, p.focus, p.tri, p.before, p.seq, p.kwargs = tag, focus, tri, before, seq, kwargs
+        p.cells = list(tri.cells) if tri is not None else cells
+        p.prem, p.extra = prem, [list(e) for e in extra]
+        p.kind = "I" if p.cells and isinstance(p.cells[0], IncrementalCell) else "U"
+        p.n_slices = len({c.metadata for c in p.cells})
+        p.flavor, p.refuse, p.mixed, p.ratio_clash = "lesson", None, False, False
+        p.fields = sorted({k for c in p.cells for k in c.values})
+        p.allrules = dict(rules)
+        for n_, k_, ks_ in p.extra:
+            p.allrules[n_] = (k_, ks_)
+        if kwargs is not None and not prem:
+            assert kwargs.get("summarize_premium") is False
+        out.append(p)
+        return p
+
+    def sc(lo=0, hi=4096, kind=None):
+        k = kind or rng.choice(["int", "float"])
+        return rng.randrange(lo, hi) if k == "int" else float(gen.dyadic(rng, lo, hi))
+
+    def basic(si, ps, pe, ev):
+        return {"paid_loss": sc(), "reported_loss": sc(1, 512), "earned_premium": sc(1, 4096)}
+
+    kinds = ["U", "C", "I"]
+    for rep in range(reps):
+        one = [(D(2020, 1, 1), D(2020, 12, 31), [D(2020, 12, 31)])]
+        two = [(D(2020, 1, 1), D(2020, 12, 31), [D(2020, 12, 31), D(2021, 12, 31)])]
+        # -- 1. size thresholds ------------------------------------------------------------------------------------
+        for n, vk in zip(rng.sample([256, 257, 300], 3), ["int", "float", "arr"]):
+            metas = [Metadata(**{**_BASE, "details": {"coverage": "BI", "id": i}}) for i in range(n)]
+            # a second coordinate held by the first three slices only
+            def vals(si, ps, pe, ev, vk=vk):
+                if ev.year == 2021 and si > 2:
+                    return None
+                if vk == "arr":
+                    return {"paid_loss": np.array([rng.randrange(0, 4096) for _ in range(3)], dtype=np.float64),
+                            "reported_loss": np.array([rng.randrange(1, 64) for _ in range(3)], dtype=np.int64),
+                            "earned_premium": sc(1, 4096, "int")}
+                return {"paid_loss": sc(kind=vk), "reported_loss": sc(1, 512, vk), "earned_premium": sc(1, 4096, vk),
+                        "implied_atu": sc(0, 64, "float")}
+            prem = rng.random() < 0.5
+            add(f"large/slices>=256 at one coordinate ({vk})", _cells(rng.choice(kinds), metas, two, vals), prem=prem,
+                kwargs={} if prem else {"summarize_premium": False}, seq=vk == "arr")
+        for ns in [40, 256, 1000, rng.choice([80, 255, 257, 4096])]:
+            metas = [Metadata(**{**_BASE, "country": c_}) for c_ in ("DE", "ES", "US")]
+            ak = rng.choice(["iarr", "farr"])
+            def vals(si, ps, pe, ev, ns=ns, ak=ak):
+                return {"paid_loss": gen.rand_value(rng, ak, ns), "reported_loss": gen.rand_value(rng, "farr", ns, 1, 512),
+                        "earned_premium": gen.rand_value(rng, ak, ns, 1, 512) if si != 1 else sc(1, 512, "int"),
+                        "bf_weight": gen.rand_value(rng, "farr", ns, 0, 8)}
+            prem = rng.random() < 0.5
+            add(f"large/samples={ns if ns in (40, 256, 1000) else 'other'}", _cells(rng.choice(kinds), metas, two, vals),
+                prem=prem, kwargs=None, seq=True)
+        rows = gen.layout_regular(rng, res=1, n_periods=11, n_lags=10, shape="square")
+        metas = [Metadata(**{**_BASE, "loss_details": {"peril": x}}) for x in ("fire", "hail", "wind")]
+        add("large/cells>=300", _cells(rng.choice(kinds), metas, rows, basic), prem=False,
+            kwargs={"summarize_premium": False}, seq=False)
+
+        # -- 2. non-disjoint periods --------------------------------------------------------------------------------
+        y = rng.randrange(2000, 2030)
+        ends = [gen.month_end(y, 1), gen.month_end(y, 3), gen.month_end(y, 6), gen.month_end(y, 12)]
+        evs = [gen.month_end(y, 12), gen.month_end(y + 1, 6)]
+        m3 = [Metadata(**{**_BASE, "details": {"coverage": c_}}) for c_ in ("BI", "PD", "UM")]
+        same_start = [(D(y, 1, 1), pe, evs) for pe in ends]
+        same_end = [(D(y, ms, 1), ends[3], evs) for ms in (10, 7, 1)]
+        for k3 in kinds:
+            add(f"overlap/same-start in every slice ({k3})", _cells(k3, m3, same_start, basic), kwargs={})
+        add("overlap/same-end in every slice", _cells(rng.choice(kinds), m3, same_end, basic), prem=False,
+            kwargs={"summarize_premium": False})
+        add("overlap/same-start in the LAST slice only",
+            _cells("U", m3[:2], same_start[3:], basic) + _cells("U", m3[2:], same_start, basic), kwargs={})
+        add("overlap/annual slice + quarterly slice",
+            _cells("I", m3[:1], same_start[3:], basic)
+            + _cells("I", m3[1:], [(D(y, 3 * q + 1, 1), gen.month_end(y, 3 * q + 3), evs) for q in range(4)], basic), kwargs={})
+
+        # -- 3. dates off the month grid ------------------------------------------------------------------------------
+        mo = rng.randrange(1, 12)
+        half = [(D(y, mo, 1), D(y, mo, 15), [D(y, mo + 1, 15), D(y, mo + 1, 16), gen.month_end(y, mo + 1)]),
+                (D(y, mo, 16), gen.month_end(y, mo), [D(y, mo + 1, 15), gen.month_end(y, mo + 1)]),
+                (D(y, mo, 1), gen.month_end(y, mo), [D(y, mo + 1, 15), gen.month_end(y, mo + 1)])]
+        for k3 in ("U", "I"):
+            add(f"offgrid/half-month periods, evaluation 15th / 16th / month end ({k3})", _cells(k3, m3, half, basic), kwargs={})
+        # incremental: same period and evaluation date, previous evaluation dates in ONE month (15th vs month end)
+        pe_ = gen.month_end(y, mo)
+        ev_ = gen.month_end(y, mo + 1)
+        add("offgrid/incremental cells differing only in the DAY of prev_evaluation_date",
+            [IncrementalCell(D(y, mo, 1), pe_, D(y, mo, 15), ev_, basic(0, 0, 0, 0), m3[0]),
+             IncrementalCell(D(y, mo, 1), pe_, pe_, ev_, basic(0, 0, 0, 0), m3[1]),
+             IncrementalCell(D(y, mo, 1), pe_, D(y, mo, 15), ev_, basic(0, 0, 0, 0), m3[2]),
+             IncrementalCell(D(y, mo, 1), pe_, pe_, ev_, basic(0, 0, 0, 0), m3[2].__class__(**{**_BASE, "country": "DE"}))],
+            kwargs={})
+
+        # -- 4. late difference: every attribute and detail, the odd slice at a chosen position -------------------------
+        rows = gen.layout_regular(rng, res=6, n_periods=2, n_lags=2, shape="square")
+        odd_of = {
+            "risk_basis": [("Accident", "Policy"), ("Policy", "Accident")],
+            "country": [(None, "US"), ("US", None), ("US", "")],
+            "currency": [("USD", "GBP"), (None, "USD"), ("USD", None), ("", None)],
+            "reinsurance_basis": [(None, "Net"), ("Net", None), ("Net", "Gross"), ("", None)],
+            "loss_definition": [(None, "Loss"), ("Loss", None), ("Loss", "Loss+DCC")],
+            "per_occurrence_limit": [(None, 0), (0, None), (250000, 250000.5), (0, 1)],
+            "details": [({}, {"z": 0}), ({"a": 1, "b": "x"}, {"a": 1}), ({"a": 1, "b": "x"}, {"a": 1, "b": "y"}),
+                        ({"a": 1, "b": "x"}, {"a": 1, "b": None}), ({"a": 1, "b": None}, {"a": 1, "b": "x"}),
+                        ({"a": 0, "b": ""}, {"a": 0}), ({"a": 1}, {"a": 1, "zz": 2})],
+        }
+        odd_of["loss_details"] = odd_of["details"]
+        for attr in gen.ATTRS:
+            picks = odd_of[attr] if reps > 1 else rng.sample(odd_of[attr], min(2, len(odd_of[attr])))
+            for common, odd in picks:
+                # by-country: the slices are ordered by country (second sort key), so the odd slice sits exactly where it
+                # is put — an INTERIOR position (first and last slice agree) and the LAST one; by-loss_details: everything
+                # else is shared (country too), the odd slice sorts to one end
+                for family, where_ in (("by-country", "interior"), ("by-country", "last"), ("by-loss_details", "end")):
+                    if family == "by-country" and attr in ("risk_basis", "country"):
+                        continue
+                    n = rng.randrange(3, 6)
+                    j = rng.randrange(1, n - 1) if where_ == "interior" else n - 1
+                    kws = []
+                    for i in range(n):
+                        kw = dict(_BASE, **{attr: common})
+                        if family == "by-country":
+                            kw["country"] = f"C{i}"
+                        elif attr == "loss_details":
+                            kw["details"] = {"coverage": "BI", "id": i}
+                        else:
+                            kw["loss_details"] = {"peril": "wind", "id": i}
+                        if i == j:
+                            kw[attr] = odd
+                        kws.append(kw)
+                    metas = [Metadata(**kw) for kw in kws]
+                    if len(set(metas)) < n:
+                        continue
+                    try:
+                        pos = sorted(metas).index(metas[j])
+                    except TypeError:
+                        continue        # a None detail value next to a string one cannot be ordered (only by-country can hold it)
+                    where = ("last" if pos == n - 1 else "first" if pos == 0 else "interior (first and last agree)")
+                    prem = rng.random() < 0.6
+                    lp = add(f"late/{attr} differs in ONE slice: {where}", _cells(rng.choice(kinds), metas, rows, basic),
+                             prem=prem, kwargs={} if prem else {"summarize_premium": False}, seq=False)
+                    if attr in ("currency", "risk_basis"):
+                        lp.refuse = attr
+        # value level: a field only in the LAST slice / missing or None in a MIDDLE one / another kind in the last
+        m5 = [Metadata(**{**_BASE, "country": f"C{i}"}) for i in range(5)]
+        for what in ("only-last-has-field", "only-middle-has-field", "middle-lacks-field", "middle-None", "last-float-after-ints",
+                     "last-array-after-scalars", "ratio-missing-in-middle", "ratio-only-in-last", "premium-only-in-last",
+                     "first-lacks-premium"):
+            def vals(si, ps, pe, ev, what=what):
+                v = {"reported_loss": sc(1, 512, "int"), "paid_loss": sc(0, 4096, "int"), "earned_premium": sc(1, 512, "int")}
+                if what == "only-last-has-field":
+                    v.pop("paid_loss") if si != 4 else None
+                elif what == "only-middle-has-field":
+                    v.pop("paid_loss") if si != 2 else None
+                elif what == "middle-lacks-field" and si == 2:
+                    v.pop("paid_loss")
+                elif what == "middle-None" and si == 2:
+                    v["paid_loss"] = None
+                elif what == "last-float-after-ints" and si == 4:
+                    v["paid_loss"] = float(gen.dyadic(rng, 0, 64))
+                elif what == "last-array-after-scalars" and si == 4:
+                    v["paid_loss"] = np.array([1.5, 2.0, 4.0])
+                elif what == "ratio-missing-in-middle" and si not in (1, 2):
+                    v["implied_atu"] = sc(0, 64, "float")
+                    v["bf_weight"] = sc(0, 8, "float")
+                elif what == "ratio-only-in-last" and si == 4:
+                    v["geometric_weight"] = sc(0, 8, "float")
+                elif what == "premium-only-in-last" and si != 4:
+                    v.pop("earned_premium")
+                elif what == "first-lacks-premium" and si == 0:
+                    v.pop("earned_premium")
+                return v
+            prem = what not in ("premium-only-in-last", "first-lacks-premium") and rng.random() < 0.5
+            add(f"late/values {what}", _cells(rng.choice(["U", "I"] if prem else ["U", "C"]), m5, rows, vals), prem=prem,
+                kwargs={} if prem else {"summarize_premium": False}, seq=False)
+
+        # -- 5. every field, every option / no option; summary_fns given, then defaults --------------------------------
+        def allvals(si, ps, pe, ev):
+            v = {}
+            for f in names:
+                k_ = rules.get(f, ("sum", []))[0]
+                if f == "log_industry_lr":
+                    v[f] = rng.randrange(-16, 17) / 8.0
+                elif k_ in ("wavg",):
+                    v[f] = sc(0, 64, "float")
+                else:
+                    v[f] = sc(1, 512)
+            v["my_metric"] = sc()
+            return v
+        mym = [["my_metric", "sum", ["my_metric"]]]
+        for prem in (True, False):
+            add(f"options/every registered field, summary_fns + summarize_premium={prem} given",
+                _cells("U", m3, rows, allvals), prem=prem, extra=mym,
+                kwargs={"summary_fns": "custom", "summarize_premium": prem}, focus="log_industry_lr")
+        add("options/no argument at all", _cells(rng.choice(kinds), m3, rows, basic), kwargs={})
+        t_leak = Triangle(_cells("U", m3, rows, lambda *a: {**basic(*a), "mystery": 1}))
+        add("options/summary_fns given on the same triangle, then defaults (unknown field must be refused again)",
+            tri=t_leak, kwargs={}, before=lambda: call(lambda: t_leak.summarize(summary_fns=prime_fns("paid_loss"))))
+        t_leak2 = Triangle(_cells("U", m3, rows, basic))
+        add("options/summary_fns overriding paid_loss, then defaults (sum again)",
+            tri=t_leak2, kwargs={}, before=lambda: call(lambda: t_leak2.summarize(
+                summary_fns={"paid_loss": lambda vd: max(v for v in vd["paid_loss"] if v is not None)})))
+
+        # -- 6. twins: same coordinates / metadata / kinds / sizes, other values, one call after the other -----------------
+        for tw, kind, prem in (("scalars", "U", True), ("arrays", "C", False), ("incremental", "I", True)):
+            if tw == "arrays":
+                vf = lambda *a: {"paid_loss": gen.rand_value(rng, "farr", 4), "reported_loss": gen.rand_value(rng, "iarr", 4, 1, 64),  # noqa: E731
+                                 "earned_premium": gen.rand_value(rng, "farr", 4, 1, 64)}
+            else:
+                vf = basic
+            rows_t = gen.layout_regular(rng, res=3, n_periods=3, n_lags=3, shape="triangle")
+            a = Triangle(_cells(kind, m3, rows_t, vf))
+            b = Triangle([c.replace(values={k: (v * 2 + 1) for k, v in c.values.items()}) for c in a.cells])
+            kw = {} if prem else {"summarize_premium": False}
+            add(f"twin/{tw} first", tri=a, prem=prem, kwargs=kw, seq=False)
+            add(f"twin/{tw} second (same coordinates, other values)", tri=b, prem=prem, kwargs=kw, seq=False,
+                before=lambda a=a, kw=kw: call(lambda: a.summarize(**kw)))
+
+        # -- 7. derived inputs, parent's caches warm -----------------------------------------------------------------------
+        rows_d = gen.layout_regular(rng, res=3, n_periods=3, n_lags=3, shape="square")
+        pm = [Metadata(**{**_BASE, "country": c_, "currency": cu_}) for c_, cu_ in
+              (("BM", "USD"), ("GB", "GBP"), ("US", "USD"), ("ZA", "USD"))]
+        par_mixed = Triangle(_cells("U", pm, rows_d, basic))
+        pc = [Metadata(**{**_BASE, "country": c_}) for c_ in ("BM", "GB", "US")]
+        par_ok = Triangle(_cells(rng.choice(kinds), pc, rows_d, lambda *a: {**basic(*a), "mystery": 2}))
+        par_plain = Triangle(_cells(rng.choice(kinds), pc, rows_d, basic))
+
+        def warm(t):
+            SEQ.read_accessors(t)
+            for s_ in t.slices.values():
+                SEQ.read_accessors(s_)
+            call(t.summarize)
+            call(lambda: t.summarize(summarize_premium=False))
+        for t_ in (par_mixed, par_ok, par_plain):
+            warm(t_)
+        ev_mid = par_plain.evaluation_dates[1]
+        derived = {
+            "filter drops the odd-currency slice (parent refused)": lambda: par_mixed.filter(lambda c: c.metadata.currency == "USD"),
+            "metadata index of a refused parent": lambda: par_mixed[:, :, pm[2]],
+            "derive_metadata makes the currency mixed (parent accepted)":
+                lambda: par_plain.derive_metadata(currency=lambda c: "GBP" if c.metadata.country == "GB" else "USD"),
+            "derive_metadata makes the risk basis mixed":
+                lambda: par_plain.derive_metadata(risk_basis=lambda c: "Policy" if c.metadata.country == "GB" else "Accident"),
+            "derive_metadata makes all slices one": lambda: par_plain.derive_metadata(country="XX"),
+            "select drops the unknown field (parent refused)": lambda: par_ok.select(["paid_loss", "reported_loss", "earned_premium"]),
+            "derive_fields adds an unknown field (parent accepted)": lambda: par_plain.derive_fields(mystery=1),
+            "clip": lambda: par_plain.clip(max_eval=ev_mid),
+            "slice index": lambda: par_plain[4:],
+            "filter one slice out": lambda: par_plain.filter(lambda c: c.metadata.country != "BM"),
+            "right_edge": lambda: par_plain.right_edge,
+            "derive_fields rescales": lambda: par_plain.derive_fields(paid_loss=lambda c: c["paid_loss"] * 2),
+            "summarized parent summarized again": lambda: par_plain.summarize(),
+        }
+        for name, fn in derived.items():
+            st, t = call(fn)
+            if st != "ok":
+                raise common.Infra(f"lesson derivation {name} failed: {t}")
+            prem = rng.random() < 0.5
+            add(f"derived/{name}", tri=t, prem=prem, kwargs={} if prem else {"summarize_premium": False}, seq=True)
+
+        # -- 8. falsy everywhere -----------------------------------------------------------------------------------------
+        for name, shared in {
+            "details 0": dict(details={"a": 0}), "details 0.0": dict(details={"a": 0.0}), "details False": dict(details={"a": False}),
+            "details ''": dict(details={"a": ""}), "loss_details 0 / False / '' / 0.0": dict(loss_details={"a": 0, "b": False, "c": "", "d": 0.0}),
+            "limit 0": dict(per_occurrence_limit=0), "limit 0.0": dict(per_occurrence_limit=0.0),
+            "every string attribute ''": dict(risk_basis="", country="", currency="", reinsurance_basis="", loss_definition=""),
+        }.items():
+            distinguish = "loss_definition" if "every string" not in name else "per_occurrence_limit"
+            metas = [Metadata(**{**_BASE, **shared, distinguish: x}) for x in
+                     (("Loss", "Loss+DCC", None) if distinguish == "loss_definition" else (1, 2, None))]
+            prem = rng.random() < 0.5
+            add(f"falsy/shared {name} in every slice", _cells(rng.choice(kinds), metas, rows, basic), prem=prem,
+                kwargs={} if prem else {"summarize_premium": False}, seq=False)
+        metas = [Metadata(**{**_BASE, "country": c_, "details": {"a": a_}}) for c_, a_ in (("A", 0), ("B", False), ("C", 0.0))]
+        add("falsy/shared detail 0 == False == 0.0 across slices", _cells("U", metas, rows, basic), kwargs={}, seq=False)
+        for zk, zv in (("int 0", 0), ("float 0.0", 0.0), ("zero arrays", None)):
+            def vals(si, ps, pe, ev, zv=zv):
+                z = (lambda: np.zeros(3)) if zv is None else (lambda: zv)
+                return {"paid_loss": z(), "earned_premium": z(), "reported_claims": z(), "reported_loss": sc(1, 64, "int")}
+            prem = zk != "float 0.0"
+            add(f"falsy/values {zk} in every cell", _cells(rng.choice(kinds) if prem else "U", m3, rows, vals), prem=prem,
+                kwargs={} if prem else {"summarize_premium": False}, seq=True)
+    return out
+
+
+
+def run_summarize(ctx, rng, p, focus, reqs, info, sample=False, tri=None, force_seq=None, kwargs=None, before=None):
+    """one summarize case: the implementation call(s), the harness-side clauses, and the request for the driver.
+    Random cases pass only the first six arguments (the draws are the ones the loop made before this was a function)."""
+    fns = make_fns(p.extra)
+    if tri is None:
+        st, tri = call(Triangle, p.cells)
+        if st != "ok":
+            if force_seq is not None:
+                raise common.Infra(f"lesson generator produced an invalid triangle: {getattr(p, 'tag', '?')} {tri}")
+            return
+    else:
+        p.cells = list(tri.cells)
+        p.fields = sorted({k for c in p.cells for k in c.values})
+    seq = rng.random() < 0.3 if force_seq is None else force_seq
+    if before is not None:
+        before()                                 # lesson: calls that must happen immediately before the case
+    pre = w_cells(tri.cells)                     # the input as it is BEFORE any call
+    case = {"op": "summarize", "cells": pre, "prem": p.prem, "extra": p.extra}
+    if seq:
+        acc_in = SEQ.read_accessors(tri)         # (c) cached accessors of the input, read before the call
+        prime(rng, focus)                        # (b) other calls in the same process first
+    # (d) arguments with defaults are not always passed
+    if kwargs is None:
+        kwargs = {}
+        if fns is not None or rng.random() < 0.3:
+            kwargs["summary_fns"] = fns
+        if not p.prem or rng.random() < 0.3:
+            kwargs["summarize_premium"] = p.prem
+    else:
+        kwargs = dict(kwargs)
+        if "summary_fns" in kwargs:
+            kwargs["summary_fns"] = fns            # the closures built from p.extra
+    st, out = call(lambda: tri.summarize(**kwargs))
+    impl = {"ok": w_cells(out.cells)} if st == "ok" else {"err": out}
+    reqs.append({**case, "impl": impl.get("ok")})
+    info.append(("summarize", p, tri.cells, impl, case))
+    if w_cells(tri.cells) != pre:
+        ctx.fail("summarize changed its INPUT triangle", case, {"after": w_cells(tri.cells)[:4]})
+    if seq:
+        ctx.count("summarize/sequence")
+        if st == "ok":
+            bad = SEQ.accessors_consistent(out)
+            if bad:
+                ctx.fail(f"accessors of the summarized triangle disagree with its cells: {bad}", case, {"impl": impl})
+        if SEQ.read_accessors(tri) != acc_in:
+            ctx.fail("accessors of the input triangle changed across summarize", case)
+        # (a) spoil the first result in place, optionally run a differently-configured call, then call again
+        if st == "ok" and SEQ.mutate_result(out, rng, source=tri):
+            ctx.count("summarize/result-shares-objects-with-input")
+        if rng.random() < 0.5:
+            call(lambda: tri.summarize(summary_fns=prime_fns(focus), summarize_premium=not p.prem))
+        st2, out2 = call(lambda: tri.summarize(**kwargs))
+        impl2 = {"ok": w_cells(out2.cells)} if st2 == "ok" else {"err": out2}
+        same = (("err" in impl2) == ("err" in impl)) and (
+            impl2.get("err") == impl.get("err") if "err" in impl else
+            [canon_cell(c) for c in impl2["ok"]] == [canon_cell(c) for c in impl["ok"]])
+        if not same:
+            ctx.fail("a second summarize call on the same triangle with the same arguments gives another result",
+                     case, {"first": impl, "second": impl2})
+        if w_cells(tri.cells) != pre:
+            ctx.fail("summarize changed its INPUT triangle (second call)", case, {"after": w_cells(tri.cells)[:4]})
+    for f in p.fields:
+        ctx.count(f"field/{f}")
+    ctx.count(f"summarize/slices={p.n_slices}")
+    ctx.count(f"summarize/class={p.kind}")
+    ctx.count(f"summarize/prem={p.prem}")
+    ctx.count(f"summarize/flavor={p.flavor}")
+    if getattr(p, "ratio_clash", False):
+        ctx.count("summarize/ratio arrays of unequal length across slices: " + impl.get("err", "ok"))
+    ctx.count("summarize/" + ("err=" + impl["err"] if "err" in impl else "ok"))
+    if getattr(p, "tag", None):
+        ctx.count(f"lesson-outcome/{p.tag.split('/')[0]}: " + ("err=" + impl["err"] if "err" in impl else "ok"))
+        if os.environ.get("VERIF_LESSON_DEBUG"):
+            print("LESSON", p.tag, impl.get("err", "ok"), len(p.cells), kwargs)
+    if p.mixed:
+        ctx.count("summarize/mixed-kinds")
+    if p.refuse:
+        ctx.count(f"summarize/refuse={p.refuse}")
+    multi = len({c.metadata for c in p.cells}) > 1 and len(p.cells) > len({(c.period, c.evaluation_date) for c in p.cells})
+    ctx.case(digest=json.dumps([[canon_cell(c) for c in case["cells"]], p.prem, p.extra], sort_keys=True),
+             nontrivial=multi,
+             sample={"op": "summarize", "cells": len(p.cells), "slices": p.n_slices, "fields": p.fields,
+                     "class": p.kind, "prem": p.prem, "flavor": p.flavor} if sample else None)
+    exp = expected_refusal(p)
+    if exp and impl.get("err") != "TriangleError":
+        ctx.fail(f"refusal: {exp} must raise TriangleError", case, {"impl": impl if "err" in impl else "returned a triangle"})
+
+
 def correspondence(ctx):
     rng = ctx.rng
     rules = read_rules()
@@ -370,72 +786,19 @@ def correspondence(ctx):
     for i in range(n_sum):
         focus = names[i % len(names)]
         p = gen_case(rng, focus, rules, names)
-        fns = make_fns(p.extra)
-        st, tri = call(Triangle, p.cells)
-        if st != "ok":
-            continue
-        seq = rng.random() < 0.3
-        pre = w_cells(tri.cells)                     # the input as it is BEFORE any call
-        case = {"op": "summarize", "cells": pre, "prem": p.prem, "extra": p.extra}
-        if seq:
-            acc_in = SEQ.read_accessors(tri)         # (c) cached accessors of the input, read before the call
-            prime(rng, focus)                        # (b) other calls in the same process first
-        # (d) arguments with defaults are not always passed
-        kwargs = {}
-        if fns is not None or rng.random() < 0.3:
-            kwargs["summary_fns"] = fns
-        if not p.prem or rng.random() < 0.3:
-            kwargs["summarize_premium"] = p.prem
-        st, out = call(lambda: tri.summarize(**kwargs))
-        impl = {"ok": w_cells(out.cells)} if st == "ok" else {"err": out}
-        reqs.append({**case, "impl": impl.get("ok")})
-        info.append(("summarize", p, tri.cells, impl, case))
-        if w_cells(tri.cells) != pre:
-            ctx.fail("summarize changed its INPUT triangle", case, {"after": w_cells(tri.cells)[:4]})
-        if seq:
-            ctx.count("summarize/sequence")
-            if st == "ok":
-                bad = SEQ.accessors_consistent(out)
-                if bad:
-                    ctx.fail(f"accessors of the summarized triangle disagree with its cells: {bad}", case, {"impl": impl})
-            if SEQ.read_accessors(tri) != acc_in:
-                ctx.fail("accessors of the input triangle changed across summarize", case)
-            # (a) spoil the first result in place, optionally run a differently-configured call, then call again
-            if st == "ok" and SEQ.mutate_result(out, rng, source=tri):
-                ctx.count("summarize/result-shares-objects-with-input")
-            if rng.random() < 0.5:
-                call(lambda: tri.summarize(summary_fns=prime_fns(focus), summarize_premium=not p.prem))
-            st2, out2 = call(lambda: tri.summarize(**kwargs))
-            impl2 = {"ok": w_cells(out2.cells)} if st2 == "ok" else {"err": out2}
-            same = (("err" in impl2) == ("err" in impl)) and (
-                impl2.get("err") == impl.get("err") if "err" in impl else
-                [canon_cell(c) for c in impl2["ok"]] == [canon_cell(c) for c in impl["ok"]])
-            if not same:
-                ctx.fail("a second summarize call on the same triangle with the same arguments gives another result",
-                         case, {"first": impl, "second": impl2})
-            if w_cells(tri.cells) != pre:
-                ctx.fail("summarize changed its INPUT triangle (second call)", case, {"after": w_cells(tri.cells)[:4]})
-        for f in p.fields:
-            ctx.count(f"field/{f}")
-        ctx.count(f"summarize/slices={p.n_slices}")
-        ctx.count(f"summarize/class={p.kind}")
-        ctx.count(f"summarize/prem={p.prem}")
-        ctx.count(f"summarize/flavor={p.flavor}")
-        if getattr(p, "ratio_clash", False):
-            ctx.count("summarize/ratio arrays of unequal length across slices: " + impl.get("err", "ok"))
-        ctx.count("summarize/" + ("err=" + impl["err"] if "err" in impl else "ok"))
-        if p.mixed:
-            ctx.count("summarize/mixed-kinds")
-        if p.refuse:
-            ctx.count(f"summarize/refuse={p.refuse}")
-        multi = len({c.metadata for c in p.cells}) > 1 and len(p.cells) > len({(c.period, c.evaluation_date) for c in p.cells})
-        ctx.case(digest=json.dumps([[canon_cell(c) for c in case["cells"]], p.prem, p.extra], sort_keys=True),
-                 nontrivial=multi,
-                 sample={"op": "summarize", "cells": len(p.cells), "slices": p.n_slices, "fields": p.fields,
-                         "class": p.kind, "prem": p.prem, "flavor": p.flavor} if i < 3 else None)
-        exp = expected_refusal(p)
-        if exp and impl.get("err") != "TriangleError":
-            ctx.fail(f"refusal: {exp} must raise TriangleError", case, {"impl": impl if "err" in impl else "returned a triangle"})
+        run_summarize(ctx, rng, p, focus, reqs, info, sample=i < 3)
+
+    # the fixed quota of lesson cases (own random stream: the random cases above and below draw the same values as
+    # before) through the very same per-case code: model comparison, Spec on the implementation's output, refusal
+    # clauses, input-unchanged and (forced for most of them) the sequence checks
+    if not os.environ.get("VERIF_SKIP_LESSONS"):
+        import random
+        lrng = random.Random(ctx.seed * 7919 + (5 if ctx.thorough else 3))
+        for lp in lesson_cases(lrng, 4 if ctx.thorough else 1, rules, names):
+            ctx.count(f"lesson/{lp.tag}")
+            ctx.count(f"stream=lesson/{lp.tag.split('/')[0]}")
+            run_summarize(ctx, lrng, lp, lp.focus, reqs, info, sample=False, tri=lp.tri, force_seq=lp.seq,
+                          kwargs=lp.kwargs, before=lp.before)
 
     # summarize_cell_values on arbitrary cell lists
     for i in range(n_cv):
@@ -472,7 +835,13 @@ def correspondence(ctx):
                 if not okv:
                     ctx.fail(f"{op}: Spec.{clause} is false on the implementation's output", case, {"impl": impl})
         if "err" in model or "err" in impl:
-            if ("err" in model) != ("err" in impl):
+            if (op == "summarize" and "ok" in model and impl.get("err") == "TriangleError" and expected_refusal(p) is None
+                    and spec is None):
+                # the property's refusals are: mixed currency, mixed risk basis, a field without a rule. An input with
+                # none of them that the model summarizes must not be refused (spec is None: no output to judge)
+                ctx.fail("summarize refuses (TriangleError) a triangle with one currency, one risk basis and only fields that "
+                         "have an aggregation rule", case, {"impl": impl})
+            elif ("err" in model) != ("err" in impl):
                 ctx.disagree(f"{op}: raises vs returns", case, model, impl)
             elif model["err"] == "TriangleError" and impl["err"] != "TriangleError":
                 ctx.disagree(f"{op}: exception class", case, model, impl)
@@ -517,7 +886,7 @@ if __name__ == "__main__":
              "mixing kinds and shapes cell by cell, a 12% stream (of cases with a ratio field) whose ratio arrays differ in "
              "length between slices (ValueError); Cell/CumulativeCell/IncrementalCell; summarize_premium both ways; "
              "custom summary_fns (new and overriding), unknown and upper-case field names; plus summarize_cell_values "
-             "on arbitrary sub-lists. SEQUENCE stream (30% of cases): cached accessors of the input read first, priming calls of summarize / summarize_cell_values / aggregate on another input with custom summary_fns and other options, the call under test with default arguments omitted, input dump compared before/after, accessors of the result compared with a fresh triangle of its cells, the result spoiled in place (arrays zeroed, dicts edited, list reversed; objects shared with the input left alone), optionally a differently configured call, then the same call again with an identical result required. distinct = distinct canonical input dump; non-trivial = more than one slice and at "
+             "on arbitrary sub-lists. LESSON quota (about 100 cases per run, same per-case code): 256/257/300 slices at one coordinate, 40/256/1000-sample arrays, 330 cells, non-disjoint periods (same start / same end), half-month periods and day-level prev_evaluation_date differences, one odd slice among 3-5 for every metadata attribute and detail (interior / last / end), value-level late differences, every registered field with all / no options, summary_fns then defaults, value twins in sequence, derived triangles with warm parent caches, falsy shared metadata and values. SEQUENCE stream (30% of cases): cached accessors of the input read first, priming calls of summarize / summarize_cell_values / aggregate on another input with custom summary_fns and other options, the call under test with default arguments omitted, input dump compared before/after, accessors of the result compared with a fresh triangle of its cells, the result spoiled in place (arrays zeroed, dicts edited, list reversed; objects shared with the input left alone), optionally a differently configured call, then the same call again with an identical result required. distinct = distinct canonical input dump; non-trivial = more than one slice and at "
              "least one coordinate held by two cells",
         assumptions=["field names are ASCII (str.lower modelled by String.toLower)",
                      "values are NaN-free, exactly representable; ratio-field results compared with relative tolerance 2^-40",
